@@ -91,7 +91,7 @@ CHECKS = {
   text="SyncProps.tla: the target definition as a sequence of slots [name, annotation, default, kw-only] (function, self/cls method "
        "or class; 1..4 positional with every suffix of defaults, 0..2 keyword-only, annotated or not), SyncProp(mode) for every "
        "target slot x input kind x mode (plain / wrap template / --input-eval); TLC checks OnlyTarget, DefaultsAligned, "
-       "InputUntouched and TargetUpdated over all 4890 cases. Binding: every case (seeded 1200 in quick, all in thorough) is "
+       "InputUntouched and TargetUpdated over all 4890 cases. Binding: every case (seeded 6000 in quick, all in thorough) is "
        "concretised as a real pair of modules, the real sync_properties runs, and the output module's AST is projected slot by "
        "slot and compared with the specification's post-state; the sibling definition, the rest of the target (first parameter, "
        "body, decorators, return annotation), every other statement and the input file must be unchanged.",
@@ -120,7 +120,7 @@ CHECKS = {
   text="Exmod.tla: the file system as a set of paths, a package tree of 1..3 levels, Exmod(opts) with dry-run, recursion, "
        "blacklist/whitelist and a pre-existing or missing output directory; TLC checks DryRunPure, UnderOut, SourceUntouched and "
        "ExcludedSilent over all 832 option records (ideal) and their as-built weakening with the listed deviations. Binding: every "
-       "option record (seeded 280 in quick, all 832 in thorough) is laid out as a real package in a scratch directory and the real "
+       "option record (stratified 800 in quick, all in thorough) is laid out as a real package in a scratch directory and the real "
        "exmod command runs in-process under the audit-hook recorder; verdicts: the four predicates on before/after snapshots "
        "(paths, sha256) of the whole scratch tree, every generated .py is valid Python whose __all__ names defined or imported "
        "symbols, and the audit-event trace is validated by TLC against the Effects monitor (no write/mkdir/remove/rename at all "
